@@ -303,8 +303,12 @@ def c08(ctx):
 def c10(ctx):
     binp = C.build_harness()
     q = ctx.quick
-    # all rankers on a 3-letter alphabet (27, incl. constant and non-injective), both prefilter settings, every CPU-feature outcome
-    ms = memmem_shards(ctx, ["find", "iter"], 4 if q else 5, 6 if q else 7, ranks=(0, 1, 2), alpha=(0, 1, 2), tagp="mm3")
+    # rankers on a 3-letter alphabet (quick: 8 incl. constant and non-injective; thorough: all 27), both prefilter settings, every CPU-feature outcome
+    if q:
+        ms = [("mm3_%s" % a, "MC_Memmem", sub(K_MM, Alpha={0, 1, 2}, MinN=4, MaxN=4, MaxH=4, Avails={a}, Prefs={"auto", "none"}, Ranks={0, 2},
+                                              Parts={"find", "iter"}, Emit=False), MM_INV, 4) for a in ("vec", "none")]
+    else:
+        ms = memmem_shards(ctx, ["find", "iter"], 4, 5, ranks=(0, 1, 2), alpha=(0, 1, 2), tagp="mm3")
     ms += memmem_shards(ctx, ["find", "iter"], 5, 7 if q else 9, ranks=(0, 2), tagp="mm2")
     os_ = oracle_shards(ctx)
     res = run_shards(ctx, ms + os_, timeout=3000)
